@@ -25,7 +25,7 @@ def scene_case(spec):
     K = int(rng.integers(1, 3))
     radi = S.build(cfg)
     src = S.draw_inside(rng, cfg["dims"])
-    recs = [S.draw_inside(rng, cfg["dims"])]
+    recs = [S.draw_inside(rng, cfg["dims"]) for _ in range(int(rng.integers(1, 4)))]
     c, dt, dur = P.draw_timing(rng, cfg, K, "coarse" if spec["idx"] % 4 == 3 else "long", radi, src, recs)
     tag = dict(dims=cfg["dims"], patch_size=cfg["patch_size"], n_patches=cfg["n_patches"], nb=nb,
                att=cfg["att"].tolist(), alpha=cfg["alpha"].tolist(), src=src.tolist(), rec=recs[0].tolist(),
@@ -110,15 +110,19 @@ def scene_case(spec):
                                                  ratio=float(s1 / s0), expected=float(np.exp(-cfg["att"][b] * dd)),
                                                  what="patch->receiver leg not attenuated by exp(-m d)"))
                 break
-    # direct sound
-    m1 = radi.collect_energy_receiver_mono(rc, direct_sound=True).time[0] - radi.collect_energy_receiver_mono(rc).time[0]
-    m0 = r0.collect_energy_receiver_mono(rc, direct_sound=True).time[0] - r0.collect_energy_receiver_mono(rc).time[0]
-    D = float(np.linalg.norm(recs[0] - src))
-    for b in range(nb):
-        a0 = m0[b].sum(); a1 = m1[b].sum()
-        if not (abs(a1 - a0 * np.exp(-cfg["att"][b] * D)) <= 1e-9 * abs(a0)):
-            out["prop_failures"].append(dict(test="direct_leg", band=b, case=tag,
-                                             what="direct sound not attenuated by exp(-m r)"))
+    # direct sound, all receivers evaluated in ONE call: per receiver and band exp(-m r)
+    rc_all = pf.Coordinates(np.array(recs)[:, 0], np.array(recs)[:, 1], np.array(recs)[:, 2])
+    m1 = radi.collect_energy_receiver_mono(rc_all, direct_sound=True).time - radi.collect_energy_receiver_mono(rc_all).time
+    m0 = r0.collect_energy_receiver_mono(rc_all, direct_sound=True).time - r0.collect_energy_receiver_mono(rc_all).time
+    for ri, rpos in enumerate(recs):
+        D = float(np.linalg.norm(rpos - src))
+        for b in range(nb):
+            a0 = m0[ri, b].sum(); a1 = m1[ri, b].sum()
+            expect0 = 1 / (4 * np.pi * D ** 2)
+            if not (abs(a0 - expect0) <= 1e-9 * expect0) or not (abs(a1 - a0 * np.exp(-cfg["att"][b] * D)) <= 1e-9 * abs(a0)):
+                out["prop_failures"].append(dict(test="direct_leg", band=b, receiver=ri, case=tag,
+                                                 got=float(a1), expected=float(a0 * np.exp(-cfg["att"][b] * D)),
+                                                 what="direct sound not attenuated by exp(-m r) of its own receiver and band"))
     # non-increasing in m: every bin of the attenuated run <= the unattenuated run
     for name in ["etc", "patchwise", "mono"]:
         if np.any(impl[name] > i0[name] * (1 + 1e-12) + 1e-300):
